@@ -584,13 +584,17 @@ class MolGraph:
                 "expected"
             )
 
-        bonds = (matrix > threshold).nonzero()
-
-        for i, j in zip(*bonds):
-            if include_bond_order:
-                self.add_bond(int(i), int(j), bond_order=matrix[i, j])
-            else:
-                self.add_bond(int(i), int(j))
+        # rows and columns follow the order of self.atoms (as in
+        # connectivity_matrix); the diagonal is ignored
+        matrix = np.asarray(matrix)
+        atoms = tuple(self.atoms)
+        for i, j in zip(*np.triu_indices(len(atoms), k=1)):
+            value = max(matrix[i, j], matrix[j, i])
+            if value > threshold:
+                if include_bond_order:
+                    self.add_bond(atoms[i], atoms[j], bond_order=value)
+                else:
+                    self.add_bond(atoms[i], atoms[j])
 
     @classmethod
     def compose(cls, mol_graphs: Iterable[MolGraph]) -> Self:
